@@ -127,6 +127,18 @@ def check_emit_callbacks(ctx, F):
         ctx.unresolved('R2', 'a callback that receives code-word bits forwards them or stores them in a growable container', 'symbol', 'only %d emit callbacks found' % n, key='R2/emit-callback/floor')
 
 
+def _prepared_weights(F, b):
+    """canonical form of the argument(s) the wrapper hands to the tree builder (closures by fingerprint), or None."""
+    canon = dageq.Canon(F)
+    _, paths = rules.evaluate(b)
+    out = set()
+    for r in paths or []:
+        for e in r.events:
+            if e['kind'] == 'call' and e['callee'].endswith('::' + BUILDER):
+                out.add(repr(tuple(canon.term(a) for a in e['args_val'])).replace('EncoderHuffmanTree', 'Tree').replace('DecoderHuffmanTree', 'Tree'))
+    return out or None
+
+
 def check_wrapper_siblings(ctx, F):
     """The convenience constructors of the two trees (from_probabilities, from_float_probabilities) feed the shared merge
     protocol: encoder and decoder must prepare the weights identically (same conversion, same NaN handling, same
@@ -146,6 +158,10 @@ def check_wrapper_siblings(ctx, F):
             ctx.unresolved('R4', role, e[0].defpath, 'too many paths', key=key)
         elif fe == fd:
             ctx.ok('R4', role, e[0].defpath, 'structurally identical up to the tree type (closures included)', key=key)
+        elif _prepared_weights(F, e[0]) is not None and _prepared_weights(F, e[0]) == _prepared_weights(F, d[0]):
+            # what happens to the builder's *result* (unwrap_infallible vs. an explicit match on the Infallible error) does not
+            # touch the weights: compare what is handed to the shared builder
+            ctx.ok('R4', role, e[0].defpath, 'the weights handed to the shared builder are prepared identically (the handling of the builder\'s result differs in spelling only)', key=key)
         else:
             ctx.bad('R4', role, e[0].defpath, 'the two constructors differ (%s): weights that reach the shared merge loop in different types or after different conversions can order differently, so a code word of the encoder tree decodes to another symbol' % (
                 dageq.diff(dageq.fingerprint(e[0]), dageq.fingerprint(d[0]))[:300]), key=key, loc=rules.loc(e[0]))
